@@ -117,6 +117,36 @@ func siblingFamilies() []family {
 		api.AssertIsEqual(u.ToValue(u.Add(u.And(a, b), a)), p[0])
 		return nil
 	})
+	// the wire -> constraint query of the sparse builder: successful queries next to queries that FAIL
+	// (a compilation that ends in an error must leave nothing behind for the next one)
+	type wc interface {
+		GetWireConstraints(wires []frontend.Variable, addMissing bool) ([][2]int, error)
+		GetWiresConstraintExact(wires []frontend.Variable, addMissing bool) ([][2]int, error)
+	}
+	wq := func(exact, addMissing bool, nMissing int) func(api frontend.API, p, s []frontend.Variable) error {
+		return func(api frontend.API, p, s []frontend.Variable) error {
+			api.AssertIsEqual(api.Mul(s[4], s[5]), p[0])
+			q, ok := api.Compiler().(wc)
+			if !ok {
+				return fmt.Errorf("builder does not offer the wire query interface")
+			}
+			wires := append([]frontend.Variable{s[4]}, s[:nMissing]...)
+			var err error
+			if exact {
+				_, err = q.GetWiresConstraintExact(wires, addMissing)
+			} else {
+				_, err = q.GetWireConstraints(wires, addMissing)
+			}
+			return err
+		}
+	}
+	addQ := func(variant string, def func(api frontend.API, p, s []frontend.Variable) error) {
+		f = append(f, family{name: "sib:wirequery:" + variant, nP: 1, nS: 6, def: def, scsOnly: true, opts: []frontend.CompileOption{frontend.IgnoreUnconstrainedInputs()}})
+	}
+	addQ("ok-2missing", wq(false, true, 2))
+	addQ("ok-exact-1missing", wq(true, true, 1))
+	addQ("FAILS-2missing-not-added", wq(false, false, 2))
+	addQ("FAILS-exact-3missing-not-added", wq(true, false, 3))
 	return f
 }
 
